@@ -408,8 +408,64 @@ def inline_new_helpers(module, reference_names: set) -> list:
                     process_block(hd.body, fi, inner_loops)
             i += 1
 
+    # one-line helpers (`def _is_failure(self, x): return isinstance(x, (Exception, RemoteException))`) are read in place
+    # wherever they are called, tests included: the facts a test establishes must not stop at the call
+    import copy
+
+    def one_liner(h):
+        body = list(h.node.body)
+        if body and isinstance(body[0], ast.Expr) and isinstance(body[0].value, ast.Constant) and isinstance(body[0].value.value, str):
+            body = body[1:]
+        if len(body) == 1 and isinstance(body[0], ast.Return) and body[0].value is not None and not h.node.decorator_list and not h.node.args.vararg and not h.node.args.kwarg and not h.is_async:
+            if not any(isinstance(n, (ast.Lambda, ast.ListComp, ast.SetComp, ast.DictComp, ast.GeneratorExp, ast.Yield, ast.YieldFrom, ast.Await, ast.NamedExpr)) for n in ast.walk(body[0].value)):
+                return body[0].value
+        return None
+
+    class ExprInline(ast.NodeTransformer):
+        def __init__(self, fi):
+            self.fi = fi
+
+        def visit_FunctionDef(self, node):
+            return node if node is not self.fi.node else self.generic_visit(node)
+
+        visit_AsyncFunctionDef = visit_FunctionDef
+
+        def visit_Lambda(self, node):
+            return node
+
+        def visit_Call(self, node):
+            self.generic_visit(node)
+            h, is_method = resolve(node, self.fi)
+            if h is None or h is self.fi:
+                return node
+            expr = one_liner(h)
+            if expr is None:
+                return node
+            a = h.node.args
+            params = [x.arg for x in a.posonlyargs + a.args]
+            if is_method:
+                params = params[1:]
+            if any(isinstance(x, ast.Starred) for x in node.args) or any(k.arg is None for k in node.keywords) or len(node.args) > len(params):
+                return node
+            bound = dict(zip(params, node.args))
+            for k in node.keywords:
+                if k.arg in bound or k.arg not in params:
+                    return node
+                bound[k.arg] = k.value
+            if set(bound) != set(params):
+                return node
+            # arguments must be cheap and side-effect free, they may be evaluated more than once (or not at all)
+            if not all(isinstance(v, (ast.Name, ast.Constant)) or (isinstance(v, ast.Attribute) and isinstance(v.value, ast.Name)) for v in bound.values()):
+                return node
+            new = _Subst({p: v for p, v in bound.items()}).visit(copy.deepcopy(expr))
+            for n in ast.walk(new):
+                ast.copy_location(n, node)
+            done.append((self.fi.qualname, h.qualname, node.lineno))
+            return new
+
     for q, fi in list(funcs.items()):
         if q in new_helpers:
             continue
+        ExprInline(fi).visit(fi.node)
         process_block(fi.node.body, fi, [])
     return done
